@@ -1,4 +1,6 @@
 #!/bin/bash
+# exclusive lock on /repo for the whole run (checks started by others wait)
+if [ "${VERIF_LOCK_HELD:-0}" != "1" ]; then exec env VERIF_LOCK_HELD=1 flock /tmp/verif_repo.lock "$0" "$@"; fi
 # usage: tools_mutate.sh <check-id> <sed-expr> <file-in-repo>   -- applies, runs baseline tests + quick check, reverts
 set -u
 ID=$1; EXPR=$2; FILE=$3
